@@ -46,7 +46,7 @@ ResiduesOf(neg, mag, q, r, h) == \A i \in 1..Len(q) : ModSigned(neg, mag, q[i], 
 CoefOk(e, j) ==
   LET c == e.coef[j] IN       \* c = [neg, mag, r (residues), h (hints), kind, inp (index into e.inputs or 0), sh]
   /\ ResiduesOf(c.neg, c.mag, e.q, c.r, c.h)
-  /\ BLt(BMulLimb(c.mag, 4), e.Q)                      \* one integer far below the modulus
+  /\ BLt(BMulLimb(c.mag, 2), e.Q)                      \* one centred integer
   /\ CASE c.kind = "zero"   -> BIsZero(c.mag)
        [] c.kind = "small"  -> BLe(BMul(c.mag, BPow2(40)), BAdd(e.ref, BPow2(40)))   \* FFT noise relative to the largest coefficient
        [] c.kind = "scaled" ->
@@ -57,7 +57,7 @@ CoefOk(e, j) ==
 
 CkksEventOk(e) ==
   IF e.must_refuse THEN e.refused
-  ELSE IF e.may_refuse /\ e.refused THEN TRUE
+  ELSE IF e.may_refuse THEN TRUE                        \* close to the limits: refusing or computing are both allowed, nothing is demanded
   ELSE /\ ~e.refused
        /\ \A j \in 1..Len(e.coef) : CoefOk(e, j)
        /\ e.dec_dev <= e.dec_tol                         \* decode(encode(v)) = v within the allowance (2^-20 units)
